@@ -149,6 +149,28 @@ def familyGroupsSlow (C : Calc) (sortTs : List BRow → List BRow) (l : List BRo
   | [] => []
   | _ => (runs (inFamilyOf C) (sortTs l)).map (fun g => (C.famTime g.1.row.ts, g.1 :: g.2))
 
+/-- HasNextFamily's scan exactly as the code does it, also for a calculator whose range of a timestamp
+does NOT contain that timestamp: the scan starts at the group's first row, `groupEnd` advances while
+`timeRange.Contains`; when even the first row is outside (`groupStart == groupEnd`) HasNextFamily
+returns false and nothing of the remaining rows is ever handed out. Fuel = number of rows left. -/
+def familyScanF (C : Calc) : Nat → List BRow → List (Int × List BRow)
+  | 0, _ => []
+  | _ + 1, [] => []
+  | n + 1, a :: rest =>
+    if inFamilyOf C a a then
+      (C.famTime a.row.ts, a :: rest.takeWhile (inFamilyOf C a)) :: familyScanF C n (rest.dropWhile (inFamilyOf C a))
+    else []
+
+def familyScan (C : Calc) (l : List BRow) : List (Int × List BRow) := familyScanF C l.length l
+
+/-- the family iterator as the code runs it for ANY calculator (fast path: rows 1.. inside the first
+row's range — the first row itself is not tested; slow path: sort, then `familyScan`) -/
+def familyGroupsCode (C : Calc) (sortTs : List BRow → List BRow) : List BRow → List (Int × List BRow)
+  | [] => []
+  | a :: rest =>
+    if rest.all (inFamilyOf C a) then [(C.famTime a.row.ts, a :: rest)]
+    else familyScan C (sortTs (a :: rest))
+
 structure Group where
   shard : Nat
   famTime : Int
